@@ -17,7 +17,7 @@ theorem else_needs_colon : Gen.Tokens.requireColon = [BasicRef.elseKw] := by dec
 
 theorem program_base : Gen.Tokens.programBase = 0x25A4 := rfl
 
-theorem special_chars : Gen.Tokens.specialChars = [46, 44, 40, 41, 58, 32] := by decide
+theorem special_chars : Gen.Tokens.specialChars = [46, 44, 40, 41, 58, 59, 32] := by decide
 
 theorem literal_db_empty : Gen.Tokens.literalDbEmpty = true := rfl
 
